@@ -278,7 +278,14 @@ const LEAD: &[u8] = b"ABCDEFGHIJKLNOPQRSTUVWXYZ_"; // no 'M': reserved for invok
 const TAIL: &[u8] = b"ABCDEFGHIJKLMNOPQRSTUVWXYZ_0123456789";
 
 fn seg(rng: &mut Rng) -> Vec<u8> {
-    vec![*rng.pick(LEAD), *rng.pick(TAIL), *rng.pick(TAIL), *rng.pick(TAIL)]
+    let mut v = vec![*rng.pick(LEAD), *rng.pick(TAIL), *rng.pick(TAIL), *rng.pick(TAIL)];
+    // `M<digit>xy` is the name space of the generated method calls (the digit is the arity): a bare reference to such a name
+    // would be read by any AML parser as a call with that many arguments, so it is not a tree the byte stream can represent
+    // (Props/CoherenceAml.v, Example judged_is_not_coherent); ordinary names never take that form
+    if v[0] == b'M' && v[1].is_ascii_digit() {
+        v[0] = b'N';
+    }
+    v
 }
 
 fn path_sx(rng: &mut Rng) -> Sx {
